@@ -50,5 +50,10 @@ class RunArguments:
         Serializes the options into JSON and writes the result to a file at
         `file_path`.
         """
+        # The task may have left an entry with this name in its output directory
+        # (e.g., a symbolic or hard link to the file of the version it started
+        # from). Writing through it would change another version's record.
+        if file_path.is_symlink() or file_path.exists():
+            file_path.unlink()
         with open(file_path, "w", encoding="UTF-8") as file:
             json.dump(self._args, file, indent=2)
